@@ -252,6 +252,23 @@ def mutations():
     return out
 
 
+def awkward_times():
+    """time values that are not short decimals (1/3, 2/7, 7/3, 0.1 + 0.2):
+    each measurement is still paired with the prediction at its own time"""
+    out = []
+    third, t73 = 1.0 / 3.0, 7.0 / 3.0
+    layouts = [[[third, 1.0, 2.0, 3.0], [0.5, 2.0 / 3.0, 7.0 / 6.0, 3.0]],
+               [[0.5, 1.0, 2.0], [1.0, t73]],
+               [[k / 7.0 for k in range(1, 5)]],
+               [[0.3, 0.1 + 0.2], [2.0 / 7.0, 0.3]],
+               [[third], [third, t73], [6.0 / 7.0]]]
+    for k, ts in enumerate(layouts):
+        for r in range(2):
+            ems = [refs.ERROR_MODELS[(k + r + i) % 4] for i in range(len(ts))]
+            out.append(('ll', 'case_ll', dict(ems=ems, times=ts), {}))
+    return out
+
+
 def grids(K, L):
     vals = TIME_VALUES[:K]
     out = []
@@ -305,6 +322,7 @@ def jobs(tier):
         out += empty_layouts()
         out += selections()
         out += mutations()
+        out += awkward_times()
     else:
         g = grids(4, 3)
         for i, t in enumerate(g):
@@ -333,6 +351,7 @@ def jobs(tier):
             ems=['Gaussian'], times=[[2.5, 1.0]], unsorted=True), {}))
         out += selections()
         out += mutations()
+        out += awkward_times()
     return out
 
 
